@@ -26,12 +26,18 @@ Module P1.
     unfold good in *. cbn [rev]. eapply run_snoc; eassumption.
   Qed.
 
-  Lemma good_settle : forall cap p fuel c, good cap c -> good cap (settle cap p fuel c).
+  Lemma good_settle1 : forall cap p fuel c, good cap c -> good cap (settle1 cap p fuel c).
   Proof.
     intros cap p. induction fuel as [|f IH]; intros [[h st] acc] G; cbn; [exact G|].
     destruct (choose p h st) as [[l h']|]; [|exact G].
     destruct (step _ cv cap st l) eqn:E; [|exact G].
     apply IH. unfold good in *. cbn [rev]. eapply run_snoc; eassumption.
+  Qed.
+
+  Lemma good_settle : forall cap p fuel c, good cap c -> good cap (settle cap p fuel c).
+  Proof.
+    intros cap p fuel c G. unfold settle. generalize fuel at 1. intros n.
+    induction n as [|n IH]; cbn; [exact G|]. apply good_settle1. exact IH.
   Qed.
 
   Lemma good_set_h : forall cap c h, good cap c -> good cap (set_h c h).
@@ -84,12 +90,18 @@ Module P2.
     unfold good in *. cbn [rev]. eapply run_snoc; eassumption.
   Qed.
 
-  Lemma good_settle : forall ad p fuel c, good ad c -> good ad (settle ad p fuel c).
+  Lemma good_settle1 : forall ad p fuel c, good ad c -> good ad (settle1 ad p fuel c).
   Proof.
     intros ad p. induction fuel as [|f IH]; intros [[h st] acc] G; cbn; [exact G|].
     destruct (choose ad p h st) as [[l h']|]; [|exact G].
     destruct (step _ cv ad st l) eqn:E; [|exact G].
     apply IH. unfold good in *. cbn [rev]. eapply run_snoc; eassumption.
+  Qed.
+
+  Lemma good_settle : forall ad p fuel c, good ad c -> good ad (settle ad p fuel c).
+  Proof.
+    intros ad p fuel c G. unfold settle. generalize fuel at 1. intros n.
+    induction n as [|n IH]; cbn; [exact G|]. apply good_settle1. exact IH.
   Qed.
 
   Lemma good_set_h : forall ad c h, good ad c -> good ad (set_h c h).
